@@ -30,7 +30,9 @@ ASSUMPTIONS = [
     'delegation family: depth 1-2 (thorough 3), at every level L the link to the next level goes through a second Manifest '
     'in the SAME directory (Manifest.files, plain/gz; thorough every format); chain positions are then NODES and k ranges '
     'over nodes; a Manifest in directory D is needed by every query at or below D',
-    'dup family: the deepest link is recorded by two MANIFEST entries in its parent (identical / disjoint hash sets)',
+    'dup family: the deepest link is recorded by two MANIFEST entries in its parent (identical / disjoint hash sets), or '
+    '(depth >= 2) additionally by the TOP-LEVEL Manifest (size only / other hashes), i.e. by a second parent that is '
+    'loaded one round earlier; a detection may then name either stale entry',
     'thorough: pairs of independent broken links (second break = a line appended to a Manifest above the first broken '
     'one); the link nearest the top must be the one named',
     'find_timestamp() is one of the queries and the FIRST call of the forward shared-loader sequence (a harmless earlier '
@@ -101,10 +103,14 @@ def build(depth, comps, mh, sib, seed, tamper=None, deleg=None, dup=None):
         down = []
         if lv < depth:
             down.append(('M', lpaths[lv + 1], mh))
-            if dup and lv == depth - 1:
+            if dup in ('same', 'disjoint') and lv == depth - 1:
                 down.append(('M', lpaths[lv + 1], mh if dup == 'same' else other_hashes(mh)))
         if sib and lv == depth - 1:
             down.append(('M', sibpath, mh))
+        if dup in ('cross_weak', 'cross_disjoint') and lv == 0 and depth >= 2:
+            # the deepest Manifest is ALSO listed by the top-level Manifest (size only / other hashes): a second
+            # parent, met one loading round before its direct parent
+            down.append(('M', lpaths[depth], () if dup == 'cross_weak' else other_hashes(mh)))
         first.append(len(nodes))
         nodes.append(lpaths[lv])
         if deleg and deleg[0] == lv and lv < depth:
@@ -228,7 +234,8 @@ def check_case(case, scratch, stats=None):
             expect = 'same_as_base'
         bad = None
         if expect == 'raise':
-            if not (got[0] == 'exc' and got[1] == 'ManifestMismatch' and got[2] == case['broken']):
+            if not (got[0] == 'exc' and got[1] == 'ManifestMismatch'
+                    and got[2] in case.get('broken_any', [case['broken']])):
                 bad = 'broken_chain_not_reported'
                 if got[0] == 'exc' and got[1] == 'ManifestMismatch':
                     bad = 'broken_chain_wrong_path'
@@ -276,7 +283,8 @@ def check_case(case, scratch, stats=None):
                 if stats is not None:
                     stats.compared += 1
                     stats.outcomes[f'shared-loader/{label.split(":")[0]}/{got[0]}:{got[1] if got[0] == "exc" else "ret"}'] += 1
-                if not (got[0] == 'exc' and got[1] == 'ManifestMismatch' and got[2] == case['broken']):
+                if not (got[0] == 'exc' and got[1] == 'ManifestMismatch'
+                        and got[2] in case.get('broken_any', [case['broken']])):
                     if case.get('only_shared') and case['only_shared'] != [order, label]:
                         continue
                     sig = {'check': 'broken_chain_usable_on_reused_loader', 'api': label.split(':')[0],
@@ -396,7 +404,7 @@ def shards(tier, seed):
             for L in range(depth):
                 for dcomp in ((None, 'gz') if tier == 'quick' else COMPS):
                     out.append(('deleg', depth, comps, L, dcomp))
-            for dup in ('same', 'disjoint'):
+            for dup in ('same', 'disjoint') + (('cross_weak', 'cross_disjoint') if depth >= 2 else ()):
                 out.append(('dup', depth, comps, dup))
     return out
 
@@ -457,13 +465,22 @@ def run_shard(spec, tier, seed, scratch):
                     broken = nodes[k]
                 k = nmax + 1 if broken_is_sib else k
                 dc = False
-                if broken is not None and not mh and not (dup == 'disjoint' and broken == nodes[first[depth]]):
+                if broken is not None and not mh and not (dup in ('disjoint', 'cross_disjoint')
+                                                          and broken == nodes[first[depth]]):
                     dc = len(t.files[broken]) == len(base.files[broken])
+                broken_any = [broken]
+                deepest = nodes[first[depth]]
+                if (dup in ('cross_weak', 'cross_disjoint') and depth >= 2 and k != 0
+                        and t.files[deepest] != base.files[deepest]):
+                    # the untouched top-level Manifest lists the deepest Manifest too: whoever needs the deepest one
+                    # may meet that stale entry before the broken link nodes[k]
+                    if dup == 'cross_disjoint' or len(t.files[deepest]) != len(base.files[deepest]):
+                        broken_any = [broken, deepest]
                 if broken is not None and t.files[broken] == base.files[broken]:
                     continue    # nothing changed at that node (cannot happen for these kinds)
                 case = {'tree': t.to_json(), 'base': base.to_json(), 'depth': depth, 'sib': sib,
                         'k': k, 'kind': kind, 'j': j, 'broken': broken, 'dc': dc, 'info': jinfo,
-                        'broken_is_sib': broken_is_sib, 'tier': tier}
+                        'broken_is_sib': broken_is_sib, 'tier': tier, 'broken_any': broken_any}
                 vs = check_case(case, scratch, stats)
                 stats.case((spec, mh, sib, kind, j, k), nontrivial=(k >= 1 and not dc))
                 if spec[0] != 'chain' and k >= 1 and not dc:
